@@ -41,7 +41,8 @@ def gen_cases(ctx):
         c["L"]["mode"] = str(rng.choice(["const", "timedep", "posdep", "multirate"]))
         if c["L"]["mode"] == "multirate":
             c["L"]["rho"] = float(rng.choice([1e-2, 1e-3]))
-        c["L"]["kind"] = str(rng.choice(["general_trace", "general_tracefree", "simple_shear", "rank1", "shear_plus_spin", "axisym_comp"]))
+        c["L"]["kind"] = str(rng.choice(["general_trace", "general_tracefree", "simple_shear", "rank1", "shear_plus_spin", "axisym_comp",
+                                         "pure_spin", "pure_spin"]))
         c["t0"] = float(rng.choice([0.0, 0.7, -1.3, 1e4, 1e6]))
         c["regime_via"] = "static"
         yield c
